@@ -43,12 +43,19 @@ CONSTANTS Dev,        \* subset of AllDev
 
 AllDev == {"CMapNameUnconfined",     \* _load_data joins the name unchecked: any *.pickle.gz can be opened (and unpickled)
            "ImageNameUnconfined",    \* _create_unique_image_name joins the XObject name unchecked
+           "ScreenBeforeStrip",      \* containment only tested for names that LOOK dangerous (absolute / contain ..),
+                                     \* judged on the raw name before its NULs are removed
            "ContainmentByCharacters"}   \* "inside the directory" decided on the characters of the real path (startswith /
                                      \* commonprefix without a separator) instead of on its components
 ASSUME Dev \subseteq AllDev
 
 Plain == {"H", "dec", "evil", "sub", "zz", "sib"}
-Seg == Plain \cup {"dd", "d", "e", "nul", "long"}
+\* dd ".."   d "."   e empty   nul "ev<NUL>il"   long 300 bytes
+\* ndd ".<NUL>."  - a dot-dot split by a NUL      n0 "<NUL>" - nothing but a NUL (in front of a "/" it hides the root)
+\* NULs are removed from a CMap name BEFORE the path is built and resolved, so for the lookup ndd IS ".." and a name
+\* that starts with n0 followed by another segment IS absolute; a screen of the raw spelling sees neither.
+Seg == Plain \cup {"dd", "d", "e", "nul", "long", "ndd", "n0"}
+NulKinds == {"nul", "ndd", "n0"}
 
 VARIABLES site, name, icase,            \* chosen by Init
           phase,
@@ -106,7 +113,9 @@ LastWord(nm) == IF nm.segs = <<>> THEN "e" ELSE nm.segs[Len(nm.segs)]
 (* CMap lookup, as coded.                                                  *)
 (***************************************************************************)
 \* name.replace("\0", ""): the NUL-containing word "ev\0il" becomes the word "evil"
-StripNul(s) == [k \in 1..Len(s) |-> IF s[k] = "nul" THEN "evil" ELSE s[k]]
+StripNul(s) == [k \in 1..Len(s) |-> CASE s[k] = "nul" -> "evil" [] s[k] = "ndd" -> "dd" [] s[k] = "n0" -> "e" [] OTHER -> s[k]]
+\* what a screen of the raw spelling (before the NULs are removed) takes for dangerous
+RawSuspicious(nm) == IsAbs(nm) \/ \E k \in 1..Len(nm.segs) : nm.segs[k] = "dd"
 \* "to-unicode-" + registry-ordering: the prefix sticks to the first component (and makes the name relative)
 Prefixed(nm) == IF nm.segs = <<>> \/ nm.abs THEN [abs |-> FALSE, segs |-> <<"pfx:e">> \o nm.segs]
                 ELSE [abs |-> FALSE, segs |-> <<"pfx:" \o nm.segs[1]>> \o Tail(nm.segs)]
@@ -147,17 +156,20 @@ ATryDir ==
          hit == p \notin {Fail, Above} /\ FileWord(LastWord(nm)) # "" /\ <<p, FileWord(LastWord(nm))>> \in PickleFiles
          inside == hit /\ IsPrefix(d, p)
          looks == hit /\ ~inside /\ LooksInside(d, p) /\ "ContainmentByCharacters" \in Dev
-     IN IF hit /\ (inside \/ looks \/ "CMapNameUnconfined" \in Dev)
+         unscreened == hit /\ ~inside /\ "ScreenBeforeStrip" \in Dev
+                       /\ ~RawSuspicious(IF site = "regord" THEN Prefixed(name) ELSE name)
+     IN IF hit /\ (inside \/ looks \/ unscreened \/ "CMapNameUnconfined" \in Dev)
         THEN /\ reads' = reads \cup {<<p, FileWord(LastWord(nm))>>}          \* opened, read, unpickled
              /\ blame' = IF inside THEN blame
-                         ELSE IF looks THEN blame \cup {"ContainmentByCharacters"} ELSE blame \cup {"CMapNameUnconfined"}
+                         ELSE IF looks THEN blame \cup {"ContainmentByCharacters"}
+                         ELSE IF unscreened THEN blame \cup {"ScreenBeforeStrip"} ELSE blame \cup {"CMapNameUnconfined"}
              /\ phase' = "done" /\ dirs' = <<>>
         ELSE /\ dirs' = Tail(dirs) /\ UNCHANGED <<reads, blame>>
              /\ phase' = IF Tail(dirs) = <<>> THEN "done" ELSE "try"           \* raise CMapNotFound (caught by callers)
   /\ Keep /\ UNCHANGED <<creates, outfiles, drawn, err>>
 
 (* ---- image export ---- *)
-HasNul == \E k \in 1..Len(name.segs) : name.segs[k] = "nul"
+HasNul == \E k \in 1..Len(name.segs) : name.segs[k] \in NulKinds
 HasLong == \E k \in 1..Len(name.segs) : name.segs[k] = "long"
 \* the kernel reports the first component that fails: a missing directory (ENOENT) or an over-long component
 \* (ENAMETOOLONG), whichever comes first
@@ -200,7 +212,7 @@ Spec == Init /\ [][Next]_vars
 (* The property.                                                           *)
 (***************************************************************************)
 \* every file opened for reading is a resource inside a resource directory (the input is passed in open)
-ReadsConfined == \A r \in reads : InResource(r[1]) \/ blame \cap {"CMapNameUnconfined", "ContainmentByCharacters"} # {}
+ReadsConfined == \A r \in reads : InResource(r[1]) \/ blame \cap {"CMapNameUnconfined", "ContainmentByCharacters", "ScreenBeforeStrip"} # {}
 \* every file created lies inside the output directory
 WritesConfined == \A k \in 1..Len(creates) : InOut(creates[k].dir) \/ "ImageNameUnconfined" \in blame
 \* a path that exists is never opened for writing
